@@ -156,7 +156,7 @@ CNT_STREAM = {"name": "CNT", "quick": 1500, "thorough": 30000, "profiles": ["deb
 PROPS["C08"] = {
     "coq": "theories/Props/C08.v",
     "theorems": ["C08_residual", "C08_subframe", "C08_ops_len_is_bits", "C08_frame", "C08_frame_whole_bytes",
-                 "C08_precompute", "C08_either_sink", "C08_metadata", "C08_stream"],
+                 "C08_precompute", "C08_either_sink", "C08_metadata", "C08_stream", "C08_precomputed_stream"],
     "streams": "ENC+CNT",
     "rule": "ENC+CNT",
     "oracle": cnt_oracle,
@@ -640,7 +640,8 @@ PARSE_RULE = ("PARSE: small emitted streams (1-3 channels, 8/16/24 bits, blocks 
 PROPS["C15"] = {
     "coq": "theories/Props/C15.v",
     "theorems": ["C15_number_parse", "C15_residual", "C15_residual_ops_bits", "C15_subframe", "C15_subframe_ops_bits",
-                 "C15_bytes_carry_the_bits", "C15_ideal_bits", "C15_frame", "C15_stream", "C15_encoded_stream", "C15_encoded_stream_lpc", "C15_encoded_stream_verifies"],
+                 "C15_bytes_carry_the_bits", "C15_ideal_bits", "C15_frame", "C15_stream", "C15_encoded_stream", "C15_encoded_stream_lpc", "C15_encoded_stream_verifies",
+                 "C15_precompute_coherent", "C15_precomputed_stream", "C15_par_encoded_stream"],
     "streams": [PARSE_STREAM], "rule": PARSE_RULE,
     "oracle": parse_oracle,
     "assumptions": ["PARTIAL: only the number coding is proved through the parser model; the whole-tree inverse is decided per run",
@@ -738,7 +739,7 @@ PAR_RULE = ("PAR: multi-threaded encoding of 0..9 blocks (+ optional short tail)
 PROPS["C05"] = {
     "coq": "theories/Props/C05.v",
     "theorems": ["C05_all_schedules_w1_b1", "C05_all_schedules_w2_b1", "C05_all_schedules_w1_b0", "C05_par_refines_seq",
-                 "C05_invariant_init", "C05_invariant_step", "C05_par_result_is_encode_blocks"],
+                 "C05_invariant_init", "C05_invariant_step", "C05_par_result_is_encode_blocks", "C05_par_stream_same_bytes"],
     "streams": "PAR+DLV", "rule": "PAR+DLV",
     "oracle": par_oracle,
     "assumptions": ["the general theorem is about the LTS of Model/Par.v (all W, all block counts, all fault plans, all schedules); atomicity is that "
